@@ -90,8 +90,33 @@ def _cases(draw, tier):
         if idxs:
             i = draw(st.sampled_from(idxs))
             ops[i] = {'k': 'expr', 'e': ['lab', draw(st.sampled_from(sorted(keys_in_use)))]}
+    # an earlier statement with the same mnemonic, generated for another variant: selection is per statement
+    pre_ops = None
+    if len(variants) > 1 and draw(st.booleans()):
+        v2 = variants[draw(st.integers(0, len(variants) - 1))]
+        oc2 = v2.get('operands')
+        alts2 = []
+        if oc2 and oc2.get('count', 0) > 0:
+            path2 = draw(st.sampled_from([p for p in ('specific_operands', 'operand_sets') if p in oc2]))
+            if path2 == 'specific_operands':
+                alts2 = list(draw(st.sampled_from(list(oc2['specific_operands'].values())))['list'].items())
+            else:
+                for sname in oc2['operand_sets']['list']:
+                    ov = cfg['operand_sets'][sname]['operand_values']
+                    aid = draw(st.sampled_from(sorted(ov)))
+                    alts2.append((aid, ov[aid]))
+        place2 = {'address': glo + 8, 'consts': consts, 'zones': isa.zones, 'size_hint': 4}
+        pre_ops = []
+        for aid, alt in alts2:
+            if alt['type'] == 'empty':
+                continue
+            o = draw(isagen.operand_for(alt, None, place2))
+            if o is None:
+                pre_ops = None
+                break
+            pre_ops.append(o)
     return {'isa': cfg, 'mn': mn, 'ops': ops, 'address': address, 'consts': consts, 'keyconsts': keyconsts,
-            'perturb': perturb, 'variant_intended': vi}
+            'perturb': perturb, 'variant_intended': vi, 'pre_ops': pre_ops, 'pre_address': glo + 8}
 
 
 def strategy(tier):
@@ -150,6 +175,18 @@ def execute(case, ctx):
     consts = dict(case['consts'])
     consts.update(case['keyconsts'])
     src = ''.join(f'{k} = {v}\n' for k, v in consts.items())
+    pre_ok = False
+    if case.get('pre_ops') is not None:
+        # only when the reference says that earlier statement assembles on its own
+        try:
+            pre_bytes = R.encode_instruction(isa, case['mn'], case['pre_ops'],
+                                             lambda n: consts[n] if n in consts else (_ for _ in ()).throw(R.Reject('unresolved')),
+                                             case['pre_address'])
+            pre_ok = case['pre_address'] + len(pre_bytes) <= case['address']
+        except (R.Reject, R.Unspecified):
+            pre_ok = False
+    if pre_ok:
+        src += f'.org {case["pre_address"]}\n' + isagen.render_statement(case['mn'], case['pre_ops']) + '\n'
     src += f'.org {case["address"]}\n' + isagen.render_statement(case['mn'], case['ops']) + '\n'
 
     def resolve(name):
@@ -184,7 +221,8 @@ def execute(case, ctx):
         if res.outputs.get('out.bin') != want:
             findings.append(Finding(f'C13/other-encoding-selected/{tag}', detail))
     nontrivial = bool(amb) or verdict == 'reject'
-    classes = ['model:' + verdict, 'outcome:' + res.klass, 'perturb:' + case['perturb']] + ['amb:' + a for a in sorted(amb)]
+    classes = ['model:' + verdict, 'outcome:' + res.klass, 'perturb:' + case['perturb']] + ['amb:' + a for a in sorted(amb)] + \
+              (['earlier-statement-of-same-mnemonic'] if pre_ok else [])
     sample = {'statement': isagen.render_statement(case['mn'], case['ops']), 'variants': len(isa.variants(case['mn'])),
               'model_variant': chosen, 'model': verdict + (': ' + why if why else ''), 'ambiguity': sorted(amb),
               'expected_bytes': want.hex() if want is not None else None}
